@@ -33,7 +33,7 @@ func ResetAll() {
 		m.owner = 0
 	}
 	for _, m := range regRW {
-		m.writer, m.readers = 0, 0
+		m.writer, m.readers, m.announced = 0, 0, 0
 	}
 }
 
@@ -45,7 +45,7 @@ func Held() bool {
 		}
 	}
 	for _, m := range regRW {
-		if m.writer != 0 || m.readers != 0 {
+		if m.writer != 0 || m.readers != 0 || m.announced != 0 {
 			return true
 		}
 	}
@@ -106,12 +106,16 @@ func (m *Mutex) TryLock() bool {
 	return true
 }
 
-// RWMutex is a modelled reader/writer mutex.
+// RWMutex is a modelled reader/writer mutex with Go's documented writer preference: a Lock call
+// first announces itself (from then on no new RLock succeeds — "a blocked Lock call excludes new
+// readers from acquiring the lock") and then waits for the active readers to leave. A read lock
+// taken recursively while a writer is announced therefore deadlocks, as it does in the real thing.
 type RWMutex struct {
-	real    sync.RWMutex
-	writer  int
-	readers int
-	reg     bool
+	real      sync.RWMutex
+	writer    int // holder of the write lock
+	announced int // writer that has announced itself (holds the writers' mutex), waiting or holding
+	readers   int
+	reg       bool
 }
 
 func (m *RWMutex) register() {
@@ -128,7 +132,9 @@ func (m *RWMutex) Lock() {
 		return
 	}
 	m.register()
-	sched.Point("RWMutex.Lock", func() bool { return m.writer == 0 && m.readers == 0 })
+	sched.Point("RWMutex.Lock:announce", func() bool { return m.announced == 0 })
+	m.announced = sched.Self() + 1
+	sched.Point("RWMutex.Lock:acquire", func() bool { return m.readers == 0 })
 	m.writer = sched.Self() + 1
 }
 
@@ -142,7 +148,7 @@ func (m *RWMutex) Unlock() {
 	if m.writer == 0 {
 		panic("sync: Unlock of unlocked RWMutex")
 	}
-	m.writer = 0
+	m.writer, m.announced = 0, 0
 }
 
 // RLock acquires a read lock.
@@ -152,7 +158,7 @@ func (m *RWMutex) RLock() {
 		return
 	}
 	m.register()
-	sched.Point("RWMutex.RLock", func() bool { return m.writer == 0 })
+	sched.Point("RWMutex.RLock", func() bool { return m.announced == 0 })
 	m.readers++
 }
 
